@@ -286,6 +286,19 @@ class Gen:
             node = self.obs[o]["node"]
             allow = self.p["eff_in_handlers"] and node is not None and not self.nodes[node].get("eff_handler")
             e = self.effs(allow)
+            if self.p.get("sub_in_handlers") and node is not None and not self.nodes[node].get("eff_handler"):
+                # the handler subscribes on, or unsubscribes from, another observer (never its own: that is
+                # the known finding F-6.10; unsubscribing only on observers of other nodes, whose handlers run
+                # at a definite point relative to this one)
+                extra = []
+                others = [x for x in self.live_obs() if x != o and not self.obs[x].get("dead")]
+                if others and self.rng.random() < 0.5:
+                    extra.append(f"subscribe:{self.rng.choice(others)}:{1000 + len(self.subs)}")
+                far = [x for x in others if self.obs[x]["node"] is not None and self.obs[x]["node"] != node]
+                if far and self.rng.random() < 0.25:
+                    extra.append(f"unsub:{self.rng.choice(far)}:{self.rng.choice([1, 1, 2])}")
+                if extra:
+                    e = "[" + " ".join(([] if e == "[]" else e[1:-1].split()) + extra) + "]"
             if e != "[]":
                 self.nodes[node]["eff_handler"] = True
             self.emit(f"subscribe {o} {len(self.subs)} {e}")
@@ -443,7 +456,12 @@ PROFILES = {
                       obs_ops=["clone", "drop", "drop", "drop", "disallow", "read"]),
     "reads": dict(cutoffs=["eq", "never", "fn:0", "boxed:0"], weights=w(observe=7, obs_misc=12, write=12, stabilise=6, map=6),
                   obs_ops=["read", "read", "read", "clone", "drop", "disallow"], read_after_stabilise=0.3),
-    "subs": dict(weights=w(observe=7, obs_misc=16, write=12, stabilise=10, bind=3, cutoff=0),
+    # handlers that subscribe and unsubscribe on other observers
+    "subsub": dict(cutoffs=["eq", "never", "fn:0", "boxed:0"], sub_in_handlers=True,
+                   weights=w(observe=9, obs_misc=16, write=12, stabilise=10, bind=2, cutoff=0, map=6),
+                   obs_ops=["subscribe", "subscribe", "subscribe", "unsubscribe", "clone", "drop", "disallow", "read"]),
+    # cutoffs that only suppress equal values: the subscription oracle compares delivered values with the reference
+    "subs": dict(cutoffs=["eq", "never", "fn:0", "boxed:0"], weights=w(observe=7, obs_misc=16, write=12, stabilise=10, bind=3, cutoff=0),
                  obs_ops=["subscribe", "subscribe", "subscribe", "unsubscribe", "stateunsub", "clone", "drop", "disallow", "read"]),
     # C08: closures and handlers that write and read variables
     "writes": dict(eff_prob=0.45, eff_in_templates=False, eff_in_handlers=True,
@@ -479,6 +497,8 @@ def history(seed, n_ops=25, profile=None):
         return direct_recompute_history(seed)
     if profile == "expert":
         return expert_history(seed)
+    if profile == "reobserve":
+        return reobserve_history(seed)
     if profile == "perkey":
         return perkey_history(seed)
     if isinstance(profile, str):
@@ -517,11 +537,13 @@ def direct_recompute_history(seed):
         observe(o)
     if nobs[0] and rng.random() < 0.8:
         L.append("stabilise")
-    # chains over the data variables
+    # chains over the data variables (a bind may pick any node of a chain, also a node and its own dependant)
     ends = []
     for d in data:
         cur = d
         for _ in range(rng.choice([0, 1, 2, 2, 3])):
+            if rng.random() < 0.35:
+                ends.append(cur)
             cur = node(f"map {rng.choice([0, 1, 2])} [] {cur}")
             if rng.random() < 0.15:
                 observe(cur)
@@ -575,6 +597,93 @@ def direct_recompute_history(seed):
             L.append(f"dropobs {rng.randrange(nobs[0])}") if f"dropobs" not in " ".join(L[-3:]) else None
         L.append("stabilise")
         L += [f"read {o}" for o in range(nobs[0]) if f"dropobs {o}" not in L]
+    if rng.random() < 0.5:
+        # nothing is observed any more: later writes must not run anything
+        L += [f"dropobs {o}" for o in range(nobs[0]) if f"dropobs {o}" not in L]
+        L.append("stabilise")
+        L += [f"set {x} {rng.randrange(6)}" for x in range(1, nvars)]
+        L += ["stabilise", "stats"]
+    return L
+
+
+def reobserve_history(seed):
+    """C01, scripted family: nodes that stop being needed while their inputs go on changing (something else
+    keeps those inputs needed) and are observed again later: depend_on, map_ref, map_with_old, binds, folds
+    between an inner layer that stays observed and an outer layer whose observers come and go."""
+    rng = random.Random(seed)
+    L = []
+    H = [0]
+
+    def node(line):
+        L.append(line)
+        H[0] += 1
+        return H[0] - 1
+    nobs = [0]
+
+    def observe(h):
+        L.append(f"observe {h}")
+        nobs[0] += 1
+        return nobs[0] - 1
+    nv = rng.choice([2, 3])
+    vs = [node(f"var {rng.randrange(6)}") for _ in range(nv)]
+    if rng.random() < 0.4:
+        vs.append(node(f"pair {rng.randrange(4)} {rng.randrange(10, 14)}"))
+    inner = []
+    for v in vs:
+        cur = v
+        for _ in range(rng.choice([0, 1, 1, 2])):
+            cur = node(f"map {rng.choice([1, 2, 9, 5])} [] {cur}")
+        inner.append(cur)
+    keep = [observe(x) for x in inner if rng.random() < 0.7]
+    outer = []
+    for _ in range(rng.choice([2, 3, 4])):
+        a, b = rng.choice(inner + outer), rng.choice(inner + vs)
+        k = rng.choice(["dependon", "dependon", "mapref", "map", "map2", "mapold", "fold", "bind", "zip"])
+        if k == "dependon":
+            n = node(f"dependon {a} {b}")
+        elif k == "mapref":
+            n = node(f"mapref {rng.choice([0, 1])} {a}")
+        elif k == "map":
+            n = node(f"map {rng.choice([1, 2, 8])} [] {a}")
+        elif k == "map2":
+            n = node(f"map 1 [] {a} {b}")
+        elif k == "mapold":
+            n = node(f"mapold {rng.choice([0, 2])} {a}")
+        elif k == "fold":
+            n = node(f"fold 0 0 {a} {b}")
+        elif k == "zip":
+            n = node(f"zip {a} {b}")
+        else:
+            n = node(f"bind {a} {{ [] ret o{b} | map 1 [] o{b} ; ret l0.0 }}")
+        outer.append(n)
+        if rng.random() < 0.6:
+            outer.append(node(f"map 1 [] {n}"))
+    tog = {}
+    for x in outer:
+        if rng.random() < 0.6:
+            tog[x] = observe(x)
+    L.append("stabilise")
+    live = set(range(nobs[0]))
+    L += [f"read {o}" for o in sorted(live)]
+    nvars = len(vs)
+    for _ in range(rng.choice([4, 5, 6, 7])):
+        for x in list(tog):
+            r = rng.random()
+            if tog[x] is not None and r < 0.35:
+                L.append(f"dropobs {tog[x]}")
+                live.discard(tog[x])
+                tog[x] = None
+            elif tog[x] is None and r < 0.5:
+                tog[x] = observe(x)
+                live.add(tog[x])
+        for i in range(nvars):
+            if rng.random() < 0.5:
+                if "pair" in L[i]:
+                    L.append(f"setpair {i} {rng.randrange(4)} {rng.randrange(10, 14)}")
+                else:
+                    L.append(f"set {i} {rng.randrange(6)}")
+        L.append("stabilise")
+        L += [f"read {o}" for o in sorted(live)]
     return L
 
 
@@ -643,6 +752,8 @@ def expert_history(seed):
         hs = [rng.choice(cands) for _ in range(k)]
         if rng.random() < 0.3:
             hs[1] = hs[0]                      # the same child under two selector values
+        if inval_var is not None and rng.random() < 0.7:
+            hs[rng.randrange(k)] = cands[-1]   # the node that a bind may invalidate
         sl = newslot()
         effs = [f"swapdep:{E}:{sl}:{cbdefault}:" + ",".join(map(str, hs))]
         if rng.random() < 0.25:
@@ -655,6 +766,8 @@ def expert_history(seed):
         c = node(f"map 0 [{' '.join(effs)}] {sv}")
         ctrls.append(c)
         L.append(f"adddep {E} {c} {newslot()} {cbdefault}")
+        if rng.random() < (0.5 if inval_var is not None else 0.3):
+            observe(c)          # it keeps rewiring the expert node while that one is not observed
     kill = None
     if rng.random() < 0.15:
         # a child whose function invalidates the expert node; it only becomes a dependency later on
@@ -670,12 +783,12 @@ def expert_history(seed):
     L.append("stabilise")
     L += [f"read {o}" for o in range(nobs[0])]
     live = {o: True for o in range(nobs[0])}
-    for _ in range(rng.choice([3, 4, 5, 6])):
+    for _ in range(rng.choice([3, 4, 5, 6] if inval_var is None else [5, 6, 7, 8, 9])):
         r = rng.random()
-        if r < 0.12 and live.get(o_main):
+        if r < (0.12 if inval_var is None else 0.2) and live.get(o_main):
             L.append(f"dropobs {o_main}")
             live[o_main] = False
-        elif r < 0.3 and not live.get(o_main):
+        elif r < (0.3 if inval_var is None else 0.5) and not live.get(o_main):
             o_main = observe(down)
             live[o_main] = True
         elif r < 0.5 and kill is not None:
